@@ -29,7 +29,6 @@ import (
 	"github.com/containerd/stargz-snapshotter/metadata"
 	memorymetadata "github.com/containerd/stargz-snapshotter/metadata/memory"
 	"github.com/containerd/stargz-snapshotter/task"
-	fusefs "github.com/hanwen/go-fuse/v2/fs"
 	digest "github.com/opencontainers/go-digest"
 	ocispec "github.com/opencontainers/image-spec/specs-go/v1"
 )
@@ -852,17 +851,18 @@ func (s *verifStack) opPassthrough(out *verifutil.Out, p string, dropMerged bool
 		// the merged backing file is cached under (id, 0, total size): drop it so that it is rebuilt
 		s.wc.evict(reader.VerifC02GenID(f.id, 0, f.size))
 	}
+	// breadcrumb: a panic inside a merge worker goroutine cannot be recovered, the crash report of
+	// the check then ends with the input that caused it
+	fmt.Fprintf(os.Stderr, "verif-c02: passthrough open of %q (size %d, chunks of the file: %d) build[%s] stack[%s] merge_buffer_size=%d merge_worker_count=%d\n",
+		p, f.size, len(f.chunks), s.opts, s.cfg, s.cfg.mergeBuf, s.cfg.mergeWorkers)
 	fh, errno := s.tree.Open(p)
 	if errno != 0 {
 		out.Fail("open-failed", fmt.Sprintf("open %q: %v", p, errno))
 		return
 	}
 	defer verifc02.ReleaseFH(fh)
-	fd, has := -1, false
-	if pf, isPF := fh.(fusefs.FilePassthroughFder); isPF {
-		fd, has = pf.PassthroughFd()
-	}
 	ctx := fmt.Sprintf("file %q (size %d, %d chunks) [%s | %s mergebuf=%d workers=%d]", p, f.size, len(f.chunks), s.opts, s.cfg, s.cfg.mergeBuf, s.cfg.mergeWorkers)
+	got, has := verifc02.PassthroughContent(fh, f.size+16)
 	out.Comment(fmt.Sprintf("passthrough %d fd=%v drop=%v", fi, has, dropMerged))
 	if !has {
 		// passthrough needs a direct-mode directory cache; with it and a healthy registry the fd must be there
@@ -872,16 +872,7 @@ func (s *verifStack) opPassthrough(out *verifutil.Out, p string, dropMerged bool
 		out.Count("passthrough-nofd")
 		return
 	}
-	buf := make([]byte, f.size+16)
-	total := 0
-	for total < len(buf) {
-		n, err := syscall.Pread(fd, buf[total:], int64(total))
-		if n <= 0 || err != nil {
-			break
-		}
-		total += n
-	}
-	got := buf[:total]
+	total := len(got)
 	if int64(total) != f.size {
 		out.Fail("passthrough-length-differs", fmt.Sprintf("%s: the passthrough file holds %d bytes, the tar %d", ctx, total, f.size))
 	} else if !bytes.Equal(got, f.data) {
@@ -1304,7 +1295,11 @@ func TestVerifC02(t *testing.T) {
 			// files of equal chunks, merge buffer of 2-4 chunks (batched path) or odd sizes (sequential fallback)
 			opts.ChunkSize = int(chunkHint)
 			opts.MinChunkSize = []int{0, 0, 100}[rnd.Intn(3)]
-			cfg.mergeBuf = []int64{2 * chunkHint, 3 * chunkHint, 4 * chunkHint, 1, 10, 419430400}[rnd.Intn(6)]
+			// merge buffers that the chunk size divides (batched path), and — more often — ones it does
+			// not divide but that are larger than chunk+1 (a chunk then straddles a batch boundary and the
+			// file must take the sequential path), plus degenerate sizes
+			cfg.mergeBuf = []int64{2 * chunkHint, 3 * chunkHint, 2*chunkHint + 1, 2*chunkHint + chunkHint/2 + 1, chunkHint + 2,
+				3*chunkHint - 1, 4*chunkHint + 3, 1, 10, 419430400}[rnd.Intn(10)]
 		}
 		if rnd.Intn(10) == 0 {
 			cfg.syncAdd = false
@@ -1371,6 +1366,38 @@ func verifPassthroughScenarios(t *testing.T, out *verifutil.Out, rnd *verifutil.
 		s.opPassthrough(out, "small", false)
 		s.opPassthrough(out, "big", false)
 		out.Distinct(fmt.Sprintf("passthrough/%d/%d/%d/%d/%s", chunk, nchunks, cfg.mergeBuf, cfg.mergeWorkers, s.cfg))
+		s.close()
+	}
+	// chunk size NOT dividing the merge buffer, file longer than the buffer: a chunk straddles a batch
+	// boundary, which the batched merge cannot hold (6332cf7: such files take the sequential path)
+	// (short files matter: there only ONE chunk straddles, nothing else can send the file down the sequential path)
+	geo := [][3]int64{{3, 8, 20}, {5, 12, 40}, {4, 6, 10}, {7, 16, 50}, {3, 8, 9}, {6, 16, 64}, {5, 7, 23}, {9, 20, 100},
+		{5, 12, 15}, {4, 6, 8}, {7, 16, 21}, {3, 8, 9}}
+	for k, g := range geo {
+		chunk, mbs, size := g[0], g[1], g[2]
+		ents := []verifc02.Ent{verifReg("g/big", size, int64(70+k)), verifReg("tail", chunk+1, int64(90+k))}
+		ents[0].Kind = k % 2
+		opts := verifc02.BuildOpts{ChunkSize: int(chunk), Zstd: k%3 == 2}
+		if k%2 == 1 {
+			opts.MinChunkSize = 100 // several chunks per compressed stream
+		}
+		cfg := verifGenStackCfg(rnd)
+		cfg.passThrough, cfg.fsCache, cfg.direct, cfg.syncAdd, cfg.verify = true, "dir", true, true, true
+		cfg.regChunk = []int64{16, 64}[k%2]
+		cfg.mergeBuf = mbs
+		cfg.mergeWorkers = 1 + k%3
+		s, err := verifNewStack(t, ents, opts, cfg)
+		if err != nil {
+			out.Fail("scenario-setup-failed", fmt.Sprintf("passthrough geometry %d: %v", k, err))
+			continue
+		}
+		out.Comment(fmt.Sprintf("passthrough geometry %d: chunk %d, merge buffer %d, file %d, %s", k, chunk, mbs, size, s.cfg))
+		s.meta.Out = out
+		s.opPassthrough(out, "g/big", false)
+		s.opRead(out, "g/big", chunk+1, int(chunk), verifNoFault, false)
+		s.opPassthrough(out, "g/big", true)
+		s.opPassthrough(out, "tail", false)
+		out.Distinct(fmt.Sprintf("passthrough-geo/%d/%d/%d/%s", chunk, mbs, size, s.cfg))
 		s.close()
 	}
 }
